@@ -23,7 +23,7 @@ EXPLANATION = (
     "lazy views safe (BAM validate on read, BGZF seek offset bound)."
     " The indexing class K3 also covers std functions that assert a precondition on their arguments (Ord::clamp, step_by, div_euclid/rem_euclid, div_ceil, ilog*, from_digit), auto-discharged for constant arguments."
     " (L) no endless loop: every loop around fill_buf has an exit controlled by the emptiness of the window (an empty window is BufRead's only EOF signal; consume(0) changes nothing). (P) field bounds stay inside the buffer: a CR popped from a caller-provided buffer was read by the same call (count >= 2 guard) or every caller hands over an empty buffer (genuine defect F30, repaired)."
-    " (F) lazy cursor iterators built with iter::from_fn that yield io::Result reset their cursor on the error edge or are tabled as advancing before they can fail (genuine defect F34, repaired: the sam/bam data and sam cigar iterators yielded the same error for ever).")
+    " (F) lazy cursor iterators built with iter::from_fn that yield io::Result reset their cursor on the error edge or are tabled as advancing before they can fail (genuine defect F34, repaired: the sam/bam data and sam cigar iterators yielded the same error for ever). (C) get_raw_cigar compares the CG array subtype before it hands out raw bytes (genuine defect F51, repaired). (A) no reader allocates up front for a 64-bit count from the file (F52, repaired). (U) a character count is never used as a byte offset into the same text (F54, repaired at three sites, the second found by this rule).")
 ASSUMPTIONS = [
     "the baseline sites (K2/K3/K4 not auto-discharged) are undecided, not safe: the claim for them is 'nothing new'",
     "class-hierarchy analysis over-approximates dynamic dispatch (more obligations, never fewer); no fn-pointer fields exist in workspace ADTs",
@@ -150,6 +150,8 @@ def run(ctx):
     ctx.rule("C15.F", "lazy cursor iterators (iter::from_fn over a captured slice, guarded by is_empty) end after an error: the Err edge resets "
                       "the cursor, or the parser is tabled as advancing before it can fail (defect F34: the same error was yielded for ever)")
     FUSE_TABLE = {
+        "noodles_vcf::record::info::Info::<'r>::iter":
+            "field::next starts with read_key, which splits the key and its delimiter (or the whole rest) off the cursor before it can fail",
         "noodles_bcf::record::samples::Samples::<'r>::series":
             "read_series first takes the typed string-map index (at least the type descriptor byte) off the cursor: it advances before any error",
         "<noodles_vcf::record::samples::series::value::genotype::Genotype<'_> as noodles_vcf::variant::record::samples::series::value::genotype::Genotype>::iter":
@@ -172,6 +174,9 @@ def run(ctx):
             # `&mut` of a captured place handed to a workspace parser
             hands = [c for b, c in g.calls() if (c.get("f") or "") in fb.fns and any(
                 C.op_local(a) is not None and g.locals[C.op_local(a)].startswith("&mut &") for a in c["args"])]
+            # the emptiness test may live in the callee: `field::next(&mut src)` itself returns Option<io::Result<..>>
+            if not guard and any("Option<core::result::Result<" in (fb.fns[c["f"]].locals[0] or "") for c in hands):
+                guard = True
             if not guard or not hands:
                 continue
             nf += 1
@@ -188,7 +193,83 @@ def run(ctx):
                               "fails without consuming anything (an invalid type code, a dangling sign) the iterator returns the same "
                               "error for ever — iterating the fields of a record that was returned Ok does not terminate" % (
                                   k, hands[0]["f"].split("::")[-1]), g.loc())
-    ctx.floor("C15.F", "error-yielding cursor iterators built with iter::from_fn", nf, 4)
+    ctx.floor("C15.F", "error-yielding cursor iterators built with iter::from_fn", nf, 6)
+
+    # ---------------------------------------------------------------- the overflow CIGAR comes from a 4-byte-element array only
+    ctx.rule("C15.C", "the lazy BAM record takes its overflow CIGAR (CG tag) only from an array of subtype UInt32: get_raw_cigar compares the "
+                      "subtype before it hands the raw bytes to Cigar, whose iterator holds unreachable!() for a length that is no multiple "
+                      "of four (genuine defect F51, repaired: any subtype was accepted)")
+    fgc = ctx.anchor("C15.C", "noodles_bam::record::data::get_raw_cigar")
+    if fgc is not None:
+        ctx.saw_fn(fgc)
+        eqs = [b for b, c in fgc.calls() if re.search(r"Subtype as core::cmp::PartialEq>::(eq|ne)$", c.get("f") or "")]
+        somes = [bi for bi, blk in enumerate(fgc.blocks) if not blk.get("cu") for st in blk["s"]
+                 if st[0] == "=" and st[2][0] == "agg" and st[2][1] == "adt" and st[2][2] == "core::option::Option" and st[2][3] == "Some"]
+        if not somes:
+            ctx.violation("C15.C", "C15.C/ANCHOR-MISSING/get_raw_cigar/some", "get_raw_cigar no longer builds Some(raw bytes)", fgc.loc())
+        else:
+            free = [b for b in somes if b in C.reachable(fgc, 0, removed=set(eqs))]
+            if eqs and not free:
+                ctx.ok("C15.C", fgc.key, "every way to Some(raw bytes) passes the comparison of the array subtype", fgc.loc(somes[0]))
+            else:
+                ctx.violation("C15.C", "C15.C/cg-subtype-unchecked/" + fgc.key,
+                              "get_raw_cigar hands out the raw bytes of a CG array without comparing its subtype: a CG:B:C array whose length is "
+                              "no multiple of four reaches unreachable!() in bam::record::Cigar::iter (one corrupt subtype byte)", fgc.loc(somes[0]))
+
+    # ---------------------------------------------------------------- no up-front allocation for a 64-bit count from the file
+    ctx.rule("C15.A", "no reader allocates up front for a 64-bit count taken from the file: Vec / IndexMap ::with_capacity(n) with n derived "
+                      "from read_u64_le / u64::from_le_bytes panics with 'capacity overflow' for a corrupt count (genuine defect F52, "
+                      "repaired in the async gzi reader; counts of 32 bits cannot overflow the capacity computation and are only counted)")
+    na64, na32 = 0, 0
+    p64 = R.mk_pred(r"read_u64_le$|read_i64_le$|<impl u64>::from_le_bytes$|<impl i64>::from_le_bytes$|get_u64_le$|get_i64_le$")
+    p32 = R.mk_pred(r"read_u32_le$|read_i32_le$|<impl u32>::from_le_bytes$|<impl i32>::from_le_bytes$|get_u32_le$|get_i32_le$|read_u16_le$")
+    for k, f in sorted(fb.fns.items()):
+        if not f.blocks or not k.startswith(("noodles_", "<noodles_")) or "writer" in k:
+            continue
+        for b, c in f.calls():
+            if not re.search(r"::with_capacity$", c.get("f") or "") or not c["args"]:
+                continue
+            if R.derives_from_call(f, c["args"][0], p64):
+                na64 += 1
+                ctx.saw_fn(f)
+                ctx.violation("C15.A", "C15.A/capacity-from-64-bit-count/" + f.root,
+                              "%s calls %s with a 64-bit count read from the file: a corrupt count panics with 'capacity overflow' (or aborts "
+                              "on allocation failure) before a single entry was read" % (f.root, (c.get("f") or "").split("::")[-2]), f.loc(b))
+            elif R.derives_from_call(f, c["args"][0], p32):
+                na32 += 1
+    if not na64:
+        ctx.ok("C15.A", "no with_capacity site is fed by a 64-bit file field", "%d site(s) fed by a 16/32-bit field counted" % na32)
+    ctx.floor("C15.A", "with_capacity sites fed by a 16/32-bit file field (positive control of the data-flow matcher)", na32, 3)
+
+    # ---------------------------------------------------------------- character counts are not byte offsets
+    ctx.rule("C15.U", "a position counted in characters (Iterator::position over str::Chars) is never used as a byte offset into the same text "
+                      "(str::split_at / str indexing): with a multi-byte character the slice is cut inside it and panics (genuine defect "
+                      "F54, repaired); expected count 0, the F54 revert mutant is the positive example")
+    nu = 0
+    npos = 0
+    for k, f in sorted(fb.fns.items()):
+        if not f.blocks or not k.startswith(("noodles_", "<noodles_")):
+            continue
+        for b, c in f.calls():
+            fk = c.get("f") or ""
+            if fk.endswith("::position") or fk.endswith("::rposition"):
+                npos += 1
+            if not re.search(r"::r?position$", fk):
+                continue
+            # the iterator counts characters: its receiver comes from str::chars()
+            if not ("str::iter::Chars" in fk or "str::iter::Chars" in (c.get("ga") or "") or
+                    (c["args"] and R.derives_from_call(f, c["args"][0], R.mk_pred(r"str::<impl str>::chars$")))):
+                continue
+            uses = [c2 for _b2, c2 in f.calls() if re.search(r"str::<impl str>::split_at(_checked)?$|<str as core::ops::index::Index|str::traits::<impl core::slice::index::SliceIndex<str>", c2.get("f") or "")
+                    and any(R.derives_from_call(f, a, lambda s_, fk=fk: s_ == fk) for a in c2["args"][1:])]
+            if uses:
+                nu += 1
+                ctx.violation("C15.U", "C15.U/char-count-as-byte-offset/" + f.root,
+                              "%s uses the result of %s (a count of characters) as a byte offset in %s: a multi-byte character before the "
+                              "match makes the offset fall inside a character and the slice panics" % (f.root, fk.split("::")[-1], (uses[0].get("f") or "").split("::")[-1]), f.loc(b))
+    if not nu:
+        ctx.ok("C15.U", "no character count is used as a byte offset", "%d position() call sites scanned" % npos)
+    ctx.floor("C15.U", "Iterator::position call sites scanned (positive control)", npos, 10)
 
     # ---------------------------------------------------------------- field bounds stay inside the buffer
     ctx.rule("C15.P", "A10 line-ending strip: a CR popped from a caller-provided buffer was read by the same call (count >= 2 guard), or every "
